@@ -237,7 +237,7 @@ def ti_corruptions(rng, table, n):
                 choices.append(("tree", "platforms", ",".join(rest) or "zz"))
             if "checksums" in t and t["checksums"]:
                 pth = sorted(t["checksums"])[0]
-                choices += [("checksums", pth, rng.choice(["0123", "sha256:ab:cd", "x" * 33]))]
+                choices += [("checksums", pth, rng.choice(["0123", "sha256:ab:cd", "x" * 33, "ab" * 40, "f" * 65, "0" * 128, "f" * 96]))]
             if "media" in t:
                 choices += [("media", "discnum", "one")]
             if "stage2" in t and "mainimage" in t["stage2"]:
